@@ -71,7 +71,7 @@ def classify(schema, diff_rules):
 def run(ctx):
     ctx.rule = RULE
     rng = ctx.rng
-    nsch = ctx.n(140, 8000)
+    nsch = ctx.n(140, 6000)
     reach = ctx.reach
     for si in range(nsch):
         schema = lvs.gen_schema(rng, with_signers=(si % 4 == 3))
